@@ -81,6 +81,17 @@ def _gen_docs(r, n):
                 d['items'].append([f'p{i}_{j}', node])
         if r.random() < 0.08:
             d['tag'] = r.choice(['!merge', '!force', '!weak'])
+        if i > 0:
+            # operators acting on what earlier documents built (they run in the pre-merge step of whichever builder flattens them)
+            c = r.random()
+            if c < 0.12:
+                d['items'].append(['lst', emit.q([g.scalar() for _ in range(r.randrange(1, 3))], r.choice(['!append', '!extend']))])
+            elif c < 0.18:
+                d['items'].append([r.choice(['deep', 'lst', 'a']), raw('!clear ')])
+            elif c < 0.24:
+                d['items'].append(['moved', raw('!prev ' + r.choice(['lst', 'deep', 'a', 'deep.l2']))])
+            elif c < 0.32:
+                d['items'].append([r.choice(['a', 'b', 'deep']), emit.m({r.choice(['x', 'k', 'l2']): g.scalar()}, r.choice(['!notnew', '!new']))])
         docs.append(d)
     return docs, ptoks
 
@@ -131,6 +142,15 @@ def _gen_plan(r, n, kind=None):
 def generate(r, tier, index):
     n = r.choice([1, 2, 2, 3, 3, 4])
     docs, ptoks = _gen_docs(r, n)
+    same_as = {}
+    if n >= 2 and r.random() < 0.3:
+        # the same document (for includes: the very same file, possibly spelled differently) delivered a second time
+        cands = [j for j in range(n) if not any(v['doc'] == j for v in ptoks.values())]
+        if cands:
+            j = r.choice(cands[:-1] or cands)
+            docs.append(copy.deepcopy(docs[j]))
+            same_as[str(n)] = j
+            n += 1
     plans = [_gen_plan(r, n) for _ in range(3)]
     if r.random() < 0.5:
         plans.append(_gen_plan(r, n, kind=r.choice(['include_list', 'include_docs', 'multidoc', 'nested'])))
@@ -150,7 +170,7 @@ def generate(r, tier, index):
             faults.append({'kind': 'replaced', 'plan': r.randrange(len(plans)), 'nth': r.randrange(0, 6)})
         else:
             faults.append({'kind': 'missing', 'plan': r.randrange(len(plans)), 'pick': r.getrandbits(16), 'count': 1})
-    return {'docs': docs, 'ptoks': ptoks, 'plans': plans, 'faults': faults, 'under_key': r.choice(UNDER_SHAPES) if r.random() < 0.45 else None}
+    return {'docs': docs, 'ptoks': ptoks, 'plans': plans, 'faults': faults, 'same_as': same_as, 'under_key': r.choice(UNDER_SHAPES) if r.random() < 0.45 else None}
 
 
 # ---------------------------------------------------------------------------------------------
@@ -240,7 +260,18 @@ def materialise(sc, plan, wrap_key=None):
             else:
                 inc_from, inc_dir = mid, d['mid_dir']
         names = []
+        placed = {}
         for i, how in zip(d['docs'], d['file_dirs']):
+            j = sc.get('same_as', {}).get(str(i))
+            if j is not None and j in placed:
+                # same file again, under a (possibly) different spelling of its name
+                real, nm = placed[j]
+                where[i] = real
+                nm2 = r.choice([nm, './' + nm if not nm.startswith(('/', '~', '.')) else nm,
+                                'zz/../' + nm if not nm.startswith(('/', '~', '.')) else nm])
+                names.append(nm2)
+                includes.append({'from': inc_from, 'name': nm2, 'target': real})
+                continue
             fname = f'{tag}_inc{i}.yaml'
             real, decoy = _place(inc_dir, how, fname)
             files[real] = emit.emit_doc(docs[i])
@@ -261,6 +292,7 @@ def materialise(sc, plan, wrap_key=None):
             else:
                 name = real
             names.append(name)
+            placed[i] = (real, name)
             includes.append({'from': inc_from, 'name': name, 'target': real})
         if kind == 'include_docs':
             body = emit.emit_stream([raw(f'!include {emit.scalar_text(nm)}') for nm in names])
@@ -561,6 +593,28 @@ def execute(sc):
                 else:
                     _check_lookup(mat, obs, res, 'under_key')
                     _check_paths(sc, mat, obs, res, 'under_key')
+        # key: !include f merged over earlier content of the same key == the file's (stand-alone) content placed there
+        if not res['violations'] and len(sc['docs']) >= 2 and sc.get('under_key'):
+            d1, d2 = sc['docs'][0], sc['docs'][1]
+            txt2 = emit.emit(d2)
+            if not any(t in txt2 for t in ('!clear', '!prev', '!notnew')) and not d1.get('tag') and not d2.get('tag'):
+                f2 = '/w/conf/after_inc.yaml'
+                lit = copy.deepcopy(d2)
+                for it in lit['items']:
+                    if it[1].get('tag') in ('!append', '!extend'):
+                        it[1]['tag'] = None          # alone in its file there is nothing to append to: a plain list
+                first = emit.emit_doc(m({'wrapped': d1}))
+                a = {'files': {f2: emit.emit_doc(d2), '/w/conf/after_master.yaml': '{wrapped: !include after_inc.yaml}\n'},
+                     'calls': [{'text': first, 'filename': '/w/conf/first.yaml'}, {'path': '/w/conf/after_master.yaml', 'raw_yaml': False}]}
+                b = {'files': {}, 'calls': [{'text': first, 'filename': '/w/conf/first.yaml'},
+                                            {'text': emit.emit_doc(m({'wrapped': lit})), 'filename': f2}]}
+                oa, ob = _run(a), _run(b)
+                st['runs'] += 2
+                count(probes, 'delivery:under_key_after_content')
+                if oa['status'] != ob['status'] or (oa['status'] == 'ok' and oa['cfg'] != ob['cfg']):
+                    d = _first_diff(oa.get('cfg'), ob.get('cfg')) if oa['status'] == ob['status'] else ('status', oa['status'], ob['status'])
+                    res['violations'].append(core.violation('route.config', f'{{wrapped: D1}} then {{wrapped: !include f}} differs from {{wrapped: D1}} then {{wrapped: <content of f>}} at {d[0]}: {d[1]!r} vs {d[2]!r}; '
+                                                            f'D1={emit.emit(d1)} f={txt2}', kinds='under_key_after_content'))
         # fault plans
         for fi, f in enumerate(sc['faults']):
             if res['violations'] or not mats:
@@ -737,6 +791,8 @@ def shrink(sc):
             c = copy.deepcopy(sc)
             del c['docs'][i]
             c['ptoks'] = {k: (dict(v, doc=v['doc'] - (1 if v['doc'] > i else 0))) for k, v in c['ptoks'].items() if v['doc'] != i}
+            c['same_as'] = {str(int(a) - (1 if int(a) > i else 0)): (b - (1 if b > i else 0))
+                            for a, b in c.get('same_as', {}).items() if int(a) != i and b != i}
             newplans = []
             for plan in c['plans']:
                 np_ = []
